@@ -212,9 +212,9 @@ var c14StaticNames = []string{"id", "title", "data-k", "data-j", "href", "lang",
 var c14BoundNames = []string{"id", "title", "data-k", "data-j", "href", "data-b", "data-c", "disabled", "hidden", "value"}
 var c14StaticVals = []string{"main", "Hello world", "  padded  ", `a&b <c> "q"`, "", "x:y;z,w", "{curly}", "0", "false", "trail "}
 var c14StaticClass = []string{"s1", "s1 s2", "  s1   s2 ", "s-1 s_2 s3"}
-var c14StaticStyle = []string{"color: blue", "color: blue; margin: 0", "margin:0;padding:1px 2px", "color: blue; font-size: 10px; background-color: white", "width: 5px;", " color : blue ; margin : 0 ; "}
+var c14StaticStyle = []string{"display:none", "display: none; color: blue", "color: blue; display: flex", "color: blue", "color: blue; margin: 0", "margin:0;padding:1px 2px", "color: blue; font-size: 10px; background-color: white", "width: 5px;", " color : blue ; margin : 0 ; "}
 var c14BoundClassStr = []TV{tvS("b1 b2"), tvS("b1"), tvS(" b1  b2 "), tvS(""), tvNil(), tvMissing()}
-var c14BoundStyleStr = []TV{tvS("color: red"), tvS("color: red; width: 1px"), tvS("font-size:12px;"), tvS(""), tvMissing()}
+var c14BoundStyleStr = []TV{tvS("display: none"), tvS("color: red"), tvS("color: red; width: 1px"), tvS("font-size:12px;"), tvS(""), tvMissing()}
 var c14ClassKeys = []string{"on", "off", "is-on", "active", "btn-primary", "big_one", "x1", "k2"}
 
 // style keys: as written -> needs quoting
@@ -266,6 +266,9 @@ func c14Atoms() []c14Atom {
 		add(st("data-k", `a&b <c> "q"`))
 		add(st("class", "s1 s2"))
 		add(st("style", "color: blue; margin: 0"))
+		add(st("style", "display:none"))
+		add(st("style", "color: blue; display: none"))
+		add(st("style", "display: inline-block"))
 		add(st("data-j", ""))
 		add(c14Attr{K: "static", N: "disabled", Bare: true})
 		// interpolated
@@ -316,6 +319,7 @@ func c14Atoms() []c14Atom {
 		add(c14Attr{K: "sobj", P: ":", N: "style", Sp: true, Ents: []c14Ent{ent("backgroundImage", "", *c14EVar("v$")), ent("margin", "", c14Lit(tvS("1px, 2px")))}}, "v$", tvS("url(http://x/y.png)"))
 		add(c14Attr{K: "sobj", P: ":", N: "style", Ents: []c14Ent{ent("width", "", *c14Op("cat", "v$", tvS("px"))), ent("zIndex", "", *c14EVar("w$"))}}, "v$", tvS("10"), "w$", tvI(3))
 		add(c14Attr{K: "sobj", P: ":", N: "style", Ents: []c14Ent{ent("display", "", c14Lit(tvS("block")))}})
+		add(c14Attr{K: "sobj", P: ":", N: "style", Ents: []c14Ent{ent("display", "", *c14EVar("v$")), ent("color", "", c14Lit(tvS("red")))}}, "v$", tvS("none"))
 		add(c14Attr{K: "sobj", P: ":", N: "style", Ents: []c14Ent{ent("fontFamily", "", *c14EVar("v$"))}}, "v$", tvS(`'A B', serif`))
 		// v-show
 		sh := func(e *c14Expr) c14Attr { return c14Attr{K: "show", E: e} }
@@ -475,7 +479,7 @@ func init() {
 			"golang.org/x/net/html re-parse of the output is the trusted observer; duplicate attributes in the raw bytes are invisible to it",
 			"the test element must be rendered (v-if/v-else-if conditions are truthy, v-else follows a falsy v-if, v-for runs over two items); a missing element is reported as precondition/element-count",
 			"two bound attributes of the same name: either truthy value is accepted (the statement does not say which wins); two bound class / two bound style attributes are not generated",
-			"style object values that are empty, nil, missing or bool, or contain ';', are not judged (the statement does not say whether they contribute); a static 'display' declaration is not generated",
+			"style object values that are empty, nil, missing or bool, or contain ';', are not judged (the statement does not say whether they contribute)",
 			"class tokens are compared as an ordered list (static tokens first); a class attribute with no tokens and no static class may be absent or empty",
 			"non-bracketed @click / v-on / v-model / v-slot are not generated (the engine has no such directives and passes them through)",
 			"the string \"false\" (falsy in the engine, known finding of C03) and typed nil pointers/slices/maps are not generated",
